@@ -12,7 +12,8 @@ from . import common
 LEVEL = "exploration"
 RULE = ("(a) nanops.nansum/nanmean/nanmin/nanmax/nanvar/nanstd/count on 1-D float64/float32/int64/int32 arrays of length "
         "1..40 (null placements incl. all-null blocks and all-null arrays) for every n_threads 1..8 (more threads than "
-        "elements creates empty blocks), and sum/min/max per axis on 2-D arrays, against NumPy's nan-functions; "
+        "elements creates empty blocks) and for the default thread choice, the latter also on arrays of 2,000,000 +- 1, "
+        "4,000,001 and 6,000,000 elements where it switches to several threads, and sum/min/max per axis on 2-D arrays, against NumPy's nan-functions; "
         "(b) nb_dot(a, b) vs a @ b for ndarray / pandas / polars frames and int/float mixes; (c) bools_to_categorical: "
         "EXHAUSTIVELY all boolean frames with <= 3 columns x <= 4 rows, plus random frames up to 40 columns around the "
         "8/16/32 bit-width switches - every row's label must name exactly its true columns; (d) pretty_cut: random values "
@@ -36,7 +37,7 @@ def plan(tier):
 
 
 def required_counters(tier):
-    return ["nanops_calls", "threads_gt_len", "all_null_block", "axis_calls", "dot_calls", "bool_frames", "bool_width_16", "bool_width_32",
+    return ["nanops_calls", "default_thread_choice_calls", "default_thread_choice_multi_thread_calls", "threads_gt_len", "all_null_block", "axis_calls", "dot_calls", "bool_frames", "bool_width_16", "bool_width_32",
             "bool_width_64", "cut_values", "cut_value_on_edge", "cut_nulls"]
 
 
@@ -50,6 +51,13 @@ def nontrivial(case):
 
 def _arr(case):
     dt = np.dtype(case["dtype"])
+    if case.get("big"):  # described, not listed: n small integers (exact sums in every dtype), nulls at rate null_p, optionally a leading all-null stretch
+        rng = np.random.Generator(np.random.PCG64(case["big"]["seed"]))
+        a = rng.integers(-9, 10, size=case["n"]).astype(dt)
+        if dt.kind == "f":
+            a[rng.random(case["n"]) < case["big"]["null_p"]] = np.nan
+            a[: case["big"]["null_prefix"]] = np.nan
+        return a
     if dt.kind == "f":
         return np.array([np.nan if v is None else v for v in case["vals"]], dtype=dt)
     return np.array(case["vals"], dtype=dt)
@@ -60,6 +68,10 @@ def _isnull(x):
         return x is None or (isinstance(x, (float, np.floating)) and math.isnan(x)) or x is pd.NaT
     except TypeError:
         return False
+
+
+def _show(a):
+    return a.tolist() if len(a) <= 64 else f"<{len(a)} elements, first {a[:4].tolist()}>"
 
 
 def check_nanops(case, ctx):
@@ -86,9 +98,9 @@ def check_nanops(case, ctx):
     tol = {"nansum": 4 * (n + 2) * eps * s_abs, "nanmean": 4 * (n + 2) * eps * s_abs / max(1, len(nn)) + 4 * eps * mx,
            "nanmin": 0.0, "nanmax": 0.0, "nanvar": 16 * (n + 2) * eps * mx * mx, "nanstd": math.sqrt(16 * (n + 2) * eps * mx * mx), "count": 0}
     for nt in case["threads"]:
-        if nt > n:
+        if nt is not None and nt > n:
             ctx.count("threads_gt_len")
-        if dt.kind == "f" and nt > 1 and any(np.isnan(b.astype("float64")).all() for b in np.array_split(a, nt) if len(b)):
+        if dt.kind == "f" and nt is not None and nt > 1 and n <= 1000 and any(np.isnan(b.astype("float64")).all() for b in np.array_split(a, nt) if len(b)):
             ctx.count("all_null_block")
         for name, r in ref.items():
             f = getattr(nanops, name)
@@ -99,9 +111,13 @@ def check_nanops(case, ctx):
             else:
                 got = lib.call(f, a, n_threads=nt)
             ctx.count("nanops_calls")
+            if nt is None:
+                ctx.count("default_thread_choice_calls")
+                if n >= 4_000_000:
+                    ctx.count("default_thread_choice_multi_thread_calls")
             sig = f"{name}|{dt.kind}"
             if lib.raised(got):
-                fails.append({"monitor": "c20.raised", "sig": f"{sig}|{type(got.exc).__name__}", "detail": f"nanops.{name}({a.tolist()}, n_threads={nt}) raised {got!r}"})
+                fails.append({"monitor": "c20.raised", "sig": f"{sig}|{type(got.exc).__name__}", "detail": f"nanops.{name}({_show(a)}, n_threads={nt}) raised {got!r}"})
                 continue
             try:
                 g = float(got)
@@ -116,7 +132,7 @@ def check_nanops(case, ctx):
             else:
                 ok = abs(g - r) <= tol[name] + 1e-300
             if not ok:
-                fails.append({"monitor": "c20.nanops", "sig": sig, "detail": f"nanops.{name}(dtype={dt}, {a.tolist()}, n_threads={nt}) = {got!r}, numpy = {r!r}"})
+                fails.append({"monitor": "c20.nanops", "sig": sig, "detail": f"nanops.{name}(dtype={dt}, {_show(a)}, n_threads={nt}) = {got!r}, numpy = {r!r}"})
         if len(fails) >= 3:
             break
     return fails
@@ -263,7 +279,7 @@ def gen_nanops(rng):
             a = int(rng.integers(0, n - 1))
             b = int(rng.integers(a + 1, n + 1))
             vals = [None if a <= i < b else v for i, v in enumerate(vals)]
-    return {"part": "nanops", "n": n, "dtype": dtype, "vals": vals, "threads": [1, 2, 3, 4, 5, 6, 7, 8]}
+    return {"part": "nanops", "n": n, "dtype": dtype, "vals": vals, "threads": [1, 2, 3, 4, 5, 6, 7, 8, None]}
 
 
 def gen_2d(rng):
@@ -327,5 +343,15 @@ def run(ctx):
     g = {"nanops": gen_nanops, "nanops2d": gen_2d, "dot": gen_dot, "bools_rand": gen_bools, "cut": gen_cut}[part]
     if part == "nanops":
         ncases = max(200, ncases // 4)
+        if ctx.shard == 0 and ctx.mode == "prod":
+            # the default thread choice (n_threads=None) switches at multiples of 2,000,000 elements: real sizes on both sides
+            sizes = [1_999_999, 2_000_000, 4_000_001, 6_000_000] + ([3_999_999, 4_000_000, 8_000_003, 12_000_000] if ctx.tier == "thorough" else [])
+            for j, size in enumerate(sizes):
+                for dtype in (["float64", "int64"] if ctx.tier == "quick" else ["float64", "float32", "int64", "int32"]):
+                    if dtype == "float32" and size > 4_000_001:
+                        continue  # float32 sums of more than 2**24 small integers are no longer exact in either implementation
+                    case = {"part": "nanops", "n": size, "dtype": dtype, "vals": [], "threads": [None, 3], "noshrink": True,
+                            "big": {"seed": int(ctx.seed) * 100 + j, "null_p": 0.1, "null_prefix": size // 3 if j % 2 else 0}}
+                    ctx.run_case(case, check, features, nontrivial)
     for _ in range(ncases):
         ctx.run_case(g(rng), check, features, nontrivial)
